@@ -505,8 +505,7 @@ theorem C05_gen_compress_tables :
     Gen.C05.deltaDomain = [false, true] ∧ Gen.C05.rleDomain = [false, true] ∧
     Gen.C05.packDomain = [none, some 1, some 2] ∧
     Gen.C05.stageOrder = ["DeltaEncoding", "RunLengthEncoding", "IntegerPackingEncoding", "ByteArrayEncoding"] ∧
-    Gen.C05.chainExtends = [("encodings_after_rle", "encodings_after_delta"),
-      ("encodings_after_packing", "encodings_after_rle"), ("encodings", "encodings_after_packing")] ∧
+    Gen.C05.chainExtends = [("v0", "v1"), ("v2", "v0"), ("v3", "v2")] ∧
     Gen.C05.unsignedLadder = unsignedCands.map (·.1) ∧ Gen.C05.signedLadder = signedCands.map (·.1) ∧
     Gen.C05.maxDecimals = 18 ∧ Gen.C05.singleValueLength = 1 := by
   decide
